@@ -522,10 +522,10 @@ SPEC = {
              'get_model_truth_table/define incl. incomplete definitions), integer wrappers in both bit orders, utility '
              'functions. Non-trivial: non-constant function.'),
     'assumptions': ['definitions in props/c12.py written from the protocol docstrings'],
-    'subs': [Sub('sampled', func_cases, check_sampled, {'quick': 320, 'thorough': 6000}),
-             Sub('netlist_circuit', netlist_cases, check_netlist, {'quick': 400, 'thorough': 6000}),
-             Sub('models', model_cases, check_models, {'quick': 800, 'thorough': 10000}),
-             Sub('int_wrappers', int_cases, check_int_wrappers, {'quick': 400, 'thorough': 4000})],
+    'subs': [Sub('sampled', func_cases, check_sampled, {'quick': 320, 'thorough': 30000}),
+             Sub('netlist_circuit', netlist_cases, check_netlist, {'quick': 400, 'thorough': 30000}),
+             Sub('models', model_cases, check_models, {'quick': 800, 'thorough': 50000}),
+             Sub('int_wrappers', int_cases, check_int_wrappers, {'quick': 400, 'thorough': 20000})],
     'sharded': {'small_function_sweep': sweep},
     'replay': {'small_function_sweep': replay_sweep},
     'exhaustive': {'utilities': utilities},
